@@ -46,6 +46,14 @@ def dict_items(e: ast.AST) -> Optional[Dict[str, ast.AST]]:
         return {k.value: v for k, v in zip(e.keys, e.values)}
     if isinstance(e, ast.Call) and isinstance(e.func, ast.Name) and e.func.id == "dict" and not e.args and all(k.arg for k in e.keywords):
         return {k.arg: k.value for k in e.keywords}
+    # dict(<such a dict>, k=v) / {**<such a dict>, "k": v}
+    nested = (isinstance(e, ast.Call) and isinstance(e.func, ast.Name) and e.func.id == "dict" and len(e.args) == 1) or \
+        (isinstance(e, ast.Dict) and any(k is None for k in e.keys))
+    if nested:
+        from .props.common import _dict_items
+        it = _dict_items(e)
+        if it is not None:
+            return dict(it)
     return None
 
 
